@@ -93,6 +93,20 @@ func (m *Machine) vocab(name string) (Intrinsic, bool) {
 			m.finishInline(it, rr, Text{W: w, N: n, NL: nl, CUU: m.IntC(0), ID: c.UF("mk", m.intSort(), w, nl)})
 			return false
 		}, true
+	case "vMarkText":
+		// vMarkText(width, newlines, digit): like vMakeText, and the piece carries an order mark (digit 1..15)
+		return func(m *Machine, wl *worklist, it *Item, fn *ssa.Function, args []Value, rr int) bool {
+			w, nl, d := args[0].(T), args[1].(T), args[2].(T)
+			n := m.add(w, nl)
+			m.finishInline(it, rr, Text{W: w, N: n, NL: nl, CUU: m.IntC(0), ID: c.UF("mk", m.intSort(), w, nl), SEQ: d, K: m.IntC(1)})
+			return false
+		}, true
+	case "vTextSeq":
+		return func(m *Machine, wl *worklist, it *Item, fn *ssa.Function, args []Value, rr int) bool {
+			s, _ := m.seqOf(args[0].(Text))
+			m.finishInline(it, rr, s)
+			return false
+		}, true
 	case "vTextWidth", "vTextLen", "vTextNL", "vTextCUU", "vTextID":
 		return func(m *Machine, wl *worklist, it *Item, fn *ssa.Function, args []Value, rr int) bool {
 			t := args[0].(Text)
